@@ -212,3 +212,54 @@ Definition step (feat : bool) (i : instr) (st : state) : result :=
         Running (set_pc (set_reg st 7 (addw (R st 7) 1)) (M st (R st 7)))
       else Exited 1 st
   end.
+
+(* ------------------------------------------------------------------ *)
+(** * Loading an image and running it (C03) *)
+
+Definition USER_END : N := 65024.   (* xFE00 *)
+Definition HALT_WORD : N := 61477.  (* xF025 *)
+Definition SP_INIT : N := 65023.    (* xFDFF *)
+
+(** An image is its origin followed by its words.  It is loadable iff it is not empty and the
+    words plus the implicit HALT behind them fit below 2^16. *)
+Definition loadable (raw : list N) : bool :=
+  match raw with
+  | [] => false
+  | origin :: words => origin + N.of_nat (length words) + 1 <=? W
+  end.
+
+Definition load (raw : list N) (inp : list N) : option state :=
+  match raw with
+  | [] => None
+  | origin :: words =>
+      if loadable raw then
+        let m := mset (mstore_list mem_zero origin words) (origin + N.of_nat (length words)) HALT_WORD in
+        Some (mkState (mkRegs 0 0 0 0 0 0 0 SP_INIT) origin CC_U m origin inp [])
+      else None
+  end.
+
+Inductive run_result :=
+| Finished (st : state)              (* normal end, exit status 0 *)
+| Stopped (code : N) (st : state)    (* error exit *)
+| Crashed (st : state)               (* panic *)
+| Hung                               (* endless string output *)
+| OutOfFuel (st : state).            (* step budget used up; [st] is the state before the next fetch *)
+
+(** The machine stops normally when PC = xFFFF, with exit xEE when PC is outside
+    [origin, xFE00); otherwise it fetches, increments PC and executes.  The trace records every
+    fetched (address, word), most recent first. *)
+Fixpoint run (feat : bool) (fuel : nat) (st : state) (tr : list (N * N)) : run_result * list (N * N) :=
+  if s_pc st =? 65535 then (Finished st, tr)
+  else if (s_pc st <? s_orig st) || (USER_END <=? s_pc st) then (Stopped 238 st, tr)
+  else match fuel with
+       | O => (OutOfFuel st, tr)
+       | S fuel' =>
+           let w := M st (s_pc st) in
+           let tr' := (s_pc st, w) :: tr in
+           match step feat (decode w) (set_pc st (addw (s_pc st) 1)) with
+           | Running st' => run feat fuel' st' tr'
+           | Exited c st' => (Stopped c st', tr')
+           | Panicked st' => (Crashed st', tr')
+           | Diverged => (Hung, tr')
+           end
+       end.
